@@ -100,7 +100,21 @@ class Setup:
         self.ff = graphs.real_filter2(self.f, self.vi, self.li)
         res = case["res"]
         self.rf_int = None if res is None else (lambda i: (res >> (i % 8)) & 1 == 1)
-        self.rf = None if res is None else (lambda v: self.rf_int(self.vi[id(v)]))
+        if res is None:
+            self.rf = None
+        elif case.get("take", 0) % 2:
+            # a well-behaved ff_result need not answer with a bool: None (e.g. from re.match / dict.get) means no,
+            # any truthy object means yes
+            self.rf = lambda v: ("yes" if self.rf_int(self.vi[id(v)]) else None)
+        else:
+            self.rf = lambda v: self.rf_int(self.vi[id(v)])
+        if case.get("take", 0) >= 3 and self.ls:
+            # links are BaseObjects and may themselves be catalogued in universes - unrelated ones here; the
+            # traversals' `uni` argument speaks about VERTICES only
+            other = Universe()
+            self.ls[0].add_to_universe(other)
+            self.ls[-1].add_to_universe(Universe())
+            self.link_universes = [other]
 
     def apply_swap(self):
         """
